@@ -22,6 +22,77 @@ from ..report import Ledger
 from ..truthy import scan_function
 
 
+def check_reinsert(prog: Program, L: Ledger, rule: str) -> None:
+    """reinsert_atoms has the scatter/gather shape that inverts `del atoms[indices]`."""
+    mod = f"{prog.package}.utils.atoms"
+    ri = prog.func(mod, "reinsert_atoms")
+    rel = ri.module.relpath
+
+    # ------------------------------------------------------------------ R1
+    p_atoms, p_new, p_idx = ri.params()[:3]
+    inl = Inliner(ri.node)
+    loops = [s for s in ri.body() if isinstance(s, ast.For)]
+    if len(loops) != 2:
+        raise AnalysisError(f"reinsert_atoms: expected two loops (existing arrays, new-only arrays), found {len(loops)}")
+    l1, l2 = loops
+    it1 = norm(l1.iter)
+    L.check(it1 in (f"{p_atoms}.arrays", f"{p_atoms}.arrays.keys()", f"list({p_atoms}.arrays)", f"list({p_atoms}.arrays.keys())"), rule, "reinsert_atoms:all-arrays", f"{rel}:{l1.lineno}",
+            f"first loop iterates `{it1}`, not every per-atom array of the target", "an array (tags, momenta, charges, custom) keeps its shortened length: Atoms becomes inconsistent", it1)
+    name = norm(l1.target)
+    body1 = l1.body
+    # source array
+    src_asg = [s for s in body1 if isinstance(s, ast.Assign) and isinstance(s.targets[0], ast.Name) and ("get_masses" in norm(s.value) or f"{p_new}.arrays" in norm(s.value))]
+    if len(src_asg) != 1:
+        raise AnalysisError("reinsert_atoms: source-array assignment not found")
+    src = src_asg[0]
+    src_name = src.targets[0].id
+    st = norm(src.value)
+    L.check(f"{p_new}.arrays.get({name}" in st or f"{p_new}.arrays[{name}]" in st or f"{p_new}.get_array({name}" in st, rule, "reinsert_atoms:source", f"{rel}:{src.lineno}",
+            f"re-inserted rows come from `{st[:90]}`, not from the removed atoms' array of the same name", "re-inserted atoms get values of another array", st[:120])
+    # new array
+    na = [s for s in body1 if isinstance(s, ast.Assign) and isinstance(s.value, ast.Call) and norm(s.value.func) in ("np.zeros", "np.empty", "np.full")]
+    if len(na) != 1:
+        raise AnalysisError("reinsert_atoms: new-array allocation not found")
+    alloc = na[0]
+    new_name = norm(alloc.targets[0])
+    shape = alloc.value.args[0]
+    kws = {k.arg: k.value for k in alloc.value.keywords}
+    dtype = kws.get("dtype")
+    if dtype is None and len(alloc.value.args) > 1 and norm(alloc.value.func) != "np.full":
+        dtype = alloc.value.args[1]
+    L.check(dtype is not None and norm(dtype) == f"{p_atoms}.arrays[{name}].dtype", rule, "reinsert_atoms:dtype", f"{rel}:{alloc.lineno}",
+            f"new array dtype is `{norm(dtype) if dtype is not None else 'float64 (default)'}`, not the dtype of the existing array",
+            "integer arrays (numbers, tags) come back as floats, or the re-inserted atoms' dtype wins", norm(alloc.value)[:120])
+    okshape = False
+    if isinstance(shape, ast.Tuple) and len(shape.elts) == 2 and isinstance(shape.elts[1], ast.Starred):
+        first = norm(inl.inline(shape.elts[0]))
+        rest = norm(shape.elts[1].value)
+        okshape = first in (f"len({p_atoms}) + len({p_new})", f"len({p_new}) + len({p_atoms})") and rest == f"{src_name}.shape[1:]"
+    L.check(okshape, rule, "reinsert_atoms:shape", f"{rel}:{alloc.lineno}", f"new array shape is `{norm(shape)[:80]}`, not (len(atoms)+len(new), *source.shape[1:])",
+            "2-D arrays (positions, momenta, custom) lose their trailing shape / length mismatch", norm(shape)[:100])
+    # mask
+    masks = [s for s in body1 if isinstance(s, ast.Assign) and isinstance(s.value, ast.Call) and norm(s.value.func) == "np.ones" and "bool" in norm(s.value)]
+    if len(masks) != 1:
+        raise AnalysisError("reinsert_atoms: boolean mask allocation not found")
+    mname = norm(masks[0].targets[0])
+    stores = [s for s in body1 if isinstance(s, ast.Assign) and isinstance(s.targets[0], ast.Subscript)]
+    texts = [norm(s) for s in stores]
+    want = [f"{mname}[{p_idx}] = False", f"{new_name}[{mname}] = {p_atoms}.arrays[{name}]", f"{new_name}[{p_idx}] = {src_name}", f"{p_atoms}.arrays[{name}] = {new_name}"]
+    for w in want:
+        L.check(w in texts, rule, f"reinsert_atoms:{w.split(' = ')[0]}", f"{rel}:{l1.lineno}",
+                f"missing scatter step `{w}` (found: {texts})", "kept rows and re-inserted rows are not placed at complementary positions: the original order is not restored", w)
+    if all(w in texts for w in want):
+        order = [texts.index(w) for w in want]
+        L.check(order == sorted(order), rule, "reinsert_atoms:order", f"{rel}:{l1.lineno}", "scatter steps are out of order", "", "order")
+    extra = [t for t in texts if t not in want]
+    L.check(not extra, rule, "reinsert_atoms:extra-stores", f"{rel}:{l1.lineno}", f"unexpected stores {extra}", "", ";".join(extra))
+    # second loop: new-only arrays
+    it2 = norm(l2.iter)
+    ok2 = it2 == f"{p_new}.arrays.items()" and any(isinstance(s, ast.If) and norm(s.test) == f"{norm(l2.target.elts[0])} not in {p_atoms}.arrays" for s in l2.body)
+    L.check(ok2, rule, "reinsert_atoms:new-only-arrays", f"{rel}:{l2.lineno}", "arrays present only in the re-inserted atoms are not added", "a per-atom array carried only by the removed atoms is lost", it2)
+
+
+
 def run(prog: Program, L: Ledger) -> None:
     L.explanation = (
         "C19 decided on utils/atoms.py by dataflow rules: reinsert_atoms is checked for the scatter/gather shape that makes it the "
@@ -37,73 +108,9 @@ def run(prog: Program, L: Ledger) -> None:
     L.assume("numpy boolean-mask / integer-index assignment scatters rows in index order (so any index order works)")
     L.assume("ase.neighborlist.neighbor_list('ij', ...) returns symmetric within-cutoff pairs; networkx.connected_components partitions the graph")
 
+    check_reinsert(prog, L, "R1")
     mod = f"{prog.package}.utils.atoms"
-    ri = prog.func(mod, "reinsert_atoms")
     sm = prog.func(mod, "search_molecules")
-    rel = ri.module.relpath
-
-    # ------------------------------------------------------------------ R1
-    p_atoms, p_new, p_idx = ri.params()[:3]
-    inl = Inliner(ri.node)
-    loops = [s for s in ri.body() if isinstance(s, ast.For)]
-    if len(loops) != 2:
-        raise AnalysisError(f"reinsert_atoms: expected two loops (existing arrays, new-only arrays), found {len(loops)}")
-    l1, l2 = loops
-    it1 = norm(l1.iter)
-    L.check(it1 in (f"{p_atoms}.arrays", f"{p_atoms}.arrays.keys()", f"list({p_atoms}.arrays)", f"list({p_atoms}.arrays.keys())"), "R1", "reinsert_atoms:all-arrays", f"{rel}:{l1.lineno}",
-            f"first loop iterates `{it1}`, not every per-atom array of the target", "an array (tags, momenta, charges, custom) keeps its shortened length: Atoms becomes inconsistent", it1)
-    name = norm(l1.target)
-    body1 = l1.body
-    # source array
-    src_asg = [s for s in body1 if isinstance(s, ast.Assign) and isinstance(s.targets[0], ast.Name) and ("get_masses" in norm(s.value) or f"{p_new}.arrays" in norm(s.value))]
-    if len(src_asg) != 1:
-        raise AnalysisError("reinsert_atoms: source-array assignment not found")
-    src = src_asg[0]
-    src_name = src.targets[0].id
-    st = norm(src.value)
-    L.check(f"{p_new}.arrays.get({name}" in st or f"{p_new}.arrays[{name}]" in st or f"{p_new}.get_array({name}" in st, "R1", "reinsert_atoms:source", f"{rel}:{src.lineno}",
-            f"re-inserted rows come from `{st[:90]}`, not from the removed atoms' array of the same name", "re-inserted atoms get values of another array", st[:120])
-    # new array
-    na = [s for s in body1 if isinstance(s, ast.Assign) and isinstance(s.value, ast.Call) and norm(s.value.func) in ("np.zeros", "np.empty", "np.full")]
-    if len(na) != 1:
-        raise AnalysisError("reinsert_atoms: new-array allocation not found")
-    alloc = na[0]
-    new_name = norm(alloc.targets[0])
-    shape = alloc.value.args[0]
-    kws = {k.arg: k.value for k in alloc.value.keywords}
-    dtype = kws.get("dtype")
-    if dtype is None and len(alloc.value.args) > 1 and norm(alloc.value.func) != "np.full":
-        dtype = alloc.value.args[1]
-    L.check(dtype is not None and norm(dtype) == f"{p_atoms}.arrays[{name}].dtype", "R1", "reinsert_atoms:dtype", f"{rel}:{alloc.lineno}",
-            f"new array dtype is `{norm(dtype) if dtype is not None else 'float64 (default)'}`, not the dtype of the existing array",
-            "integer arrays (numbers, tags) come back as floats, or the re-inserted atoms' dtype wins", norm(alloc.value)[:120])
-    okshape = False
-    if isinstance(shape, ast.Tuple) and len(shape.elts) == 2 and isinstance(shape.elts[1], ast.Starred):
-        first = norm(inl.inline(shape.elts[0]))
-        rest = norm(shape.elts[1].value)
-        okshape = first in (f"len({p_atoms}) + len({p_new})", f"len({p_new}) + len({p_atoms})") and rest == f"{src_name}.shape[1:]"
-    L.check(okshape, "R1", "reinsert_atoms:shape", f"{rel}:{alloc.lineno}", f"new array shape is `{norm(shape)[:80]}`, not (len(atoms)+len(new), *source.shape[1:])",
-            "2-D arrays (positions, momenta, custom) lose their trailing shape / length mismatch", norm(shape)[:100])
-    # mask
-    masks = [s for s in body1 if isinstance(s, ast.Assign) and isinstance(s.value, ast.Call) and norm(s.value.func) == "np.ones" and "bool" in norm(s.value)]
-    if len(masks) != 1:
-        raise AnalysisError("reinsert_atoms: boolean mask allocation not found")
-    mname = norm(masks[0].targets[0])
-    stores = [s for s in body1 if isinstance(s, ast.Assign) and isinstance(s.targets[0], ast.Subscript)]
-    texts = [norm(s) for s in stores]
-    want = [f"{mname}[{p_idx}] = False", f"{new_name}[{mname}] = {p_atoms}.arrays[{name}]", f"{new_name}[{p_idx}] = {src_name}", f"{p_atoms}.arrays[{name}] = {new_name}"]
-    for w in want:
-        L.check(w in texts, "R1", f"reinsert_atoms:{w.split(' = ')[0]}", f"{rel}:{l1.lineno}",
-                f"missing scatter step `{w}` (found: {texts})", "kept rows and re-inserted rows are not placed at complementary positions: the original order is not restored", w)
-    if all(w in texts for w in want):
-        order = [texts.index(w) for w in want]
-        L.check(order == sorted(order), "R1", "reinsert_atoms:order", f"{rel}:{l1.lineno}", "scatter steps are out of order", "", "order")
-    extra = [t for t in texts if t not in want]
-    L.check(not extra, "R1", "reinsert_atoms:extra-stores", f"{rel}:{l1.lineno}", f"unexpected stores {extra}", "", ";".join(extra))
-    # second loop: new-only arrays
-    it2 = norm(l2.iter)
-    ok2 = it2 == f"{p_new}.arrays.items()" and any(isinstance(s, ast.If) and norm(s.test) == f"{norm(l2.target.elts[0])} not in {p_atoms}.arrays" for s in l2.body)
-    L.check(ok2, "R1", "reinsert_atoms:new-only-arrays", f"{rel}:{l2.lineno}", "arrays present only in the re-inserted atoms are not added", "a per-atom array carried only by the removed atoms is lost", it2)
 
     # ------------------------------------------------------------------ R2
     rel2 = sm.module.relpath
